@@ -169,6 +169,9 @@ def leaderless_scenarios(logs, rnd, nlogs):
 
 
 def run_scenarios(ctx, scenarios, name="cons", shards=8, timeout=1500):
+    only = set(filter(None, os.environ.get("VERIF_ONLY_SCENARIOS", "").split("\n")))
+    if only and any(s_["name"] in only for s_ in scenarios):
+        scenarios = [s_ for s_ in scenarios if s_["name"] in only]     # --replay: just the reported scenarios
     cases = os.path.join(ctx.scratch, name + ".cases.ndjson")
     with open(cases, "w") as f:
         for s in scenarios:
